@@ -290,6 +290,7 @@ class C20(Prop):
     def cases(self, rng: random.Random, tier: str) -> Iterable[dict]:
         forced = [True] * 6
         forced_in = [True] * 6
+        forced_gated = 12
         while True:
             if forced_in or rng.random() < 0.05:
                 if forced_in:
@@ -302,6 +303,10 @@ class C20(Prop):
                 yield {"program": self._multi_value_exchange(rng)}
                 continue
             r = rng.random()
+            if forced_gated:
+                # a gated graph nested in a gated graph, END-routing gates on both levels, whatever the seed
+                forced_gated -= 1
+                r = 0.8
             if r < 0.55:
                 c = gen.gen_dag_program(rng, max_nodes=6, depth=rng.choice([1, 1, 2, 2, 3, 3, 0]), allow_fed_default=False, rename_graph_outputs=False)
                 program = c["program"]
